@@ -32,8 +32,24 @@ D2 == {Opt(t) : t \in Deep1} \cup {Lst(t) : t \in Deep1}
 Extra == { Opt(Opt(Leaf("()"))), Opt(Opt(Leaf("Z0"))), Lst(Lst(Leaf("String"))), Opt(Res(Leaf("u64"), Leaf("Prefix"))),
            Res(Opt(Leaf("Prefix")), Lst(Leaf("Z0"))), Ver(Lst(Leaf("String")), Opt(Leaf("f64"))),
            Lst(Opt(Leaf("IpAddr"))), Opt(Ver(Leaf("()"), Leaf("()"))) }
-TableTypes == D1 \cup D2 \cup Extra
-RunTypes   == IF Depth = 1 THEN D1 ELSE TableTypes
+(* element strides: a list stores its elements at multiples of the element size, and the side that  *)
+(* creates the list fixes that size.  The size of an enum is decided by the final rounding of the    *)
+(* union exactly when its largest variant is not the most aligned one (NeedsRounding); the only      *)
+(* leaf that makes such a variant is IpAddr (17 bytes, align 1).  Restriction: IpAddr paired with    *)
+(* one leaf per larger alignment / drop class, in both orders (the other order is the control), and  *)
+(* Option[IpAddr]; each as the element type of a list.                                               *)
+NeedsRounding(e) ==
+  LET ss == [i \in 1..2 |-> TaggedStruct([j \in 1..Len(Variants(e)[i]) |-> CLayout(Variants(e)[i][j])])]
+  IN MaxN(ss[1].size, ss[2].size) % MaxN(ss[1].align, ss[2].align) # 0
+IpA == Leaf("IpAddr")
+StrideMates == {Leaf(l) : l \in {"u32", "u64", "String", "T24"}}
+StrideElems == {Opt(IpA)} \cup {Res(IpA, m) : m \in StrideMates} \cup {Res(m, IpA) : m \in StrideMates}
+                 \cup {Ver(IpA, m) : m \in StrideMates} \cup {Ver(m, IpA) : m \in StrideMates}
+StrideTypes == StrideElems \cup {Lst(e) : e \in StrideElems}
+ASSUME \E e \in StrideElems : NeedsRounding(e)
+ASSUME \A e \in D1 : IsEnum(e) /\ NeedsRounding(e) => e \in StrideElems
+TableTypes == D1 \cup D2 \cup Extra \cup StrideTypes
+RunTypes   == IF Depth = 1 THEN D1 \cup StrideTypes ELSE TableTypes
 
 (* ---- argument vectors (seven parameters) ---------------------------------- *)
 (* all integer class: with the context pointer (and a return pointer) the later ones travel on the stack *)
@@ -76,6 +92,7 @@ TypeRoutes(t) == {"id", "hecho", "hgive", "const"}
                    \cup (IF IsLeaf(t) /\ t # Leaf("()") THEN {"hmeth"} ELSE {})       \* methods live on registered types
                    \cup (IF t[1] = "Verdict" THEN {"buildf"} ELSE {})                \* accept / reject
 TypeCfgsOf(t) == {Cfg(r, <<t>>, <<v>>, 1, 1) : r \in TypeRoutes(t), v \in Elems(ValueSeq(t))}
+                   \cup (IF IsList(t) THEN {Cfg("index", <<t>>, <<v>>, 1, k) : v \in Elems(ValueSeq(t)), k \in 1..3} ELSE {})
 
 VecVals(vec, pos, v) == [i \in 1..7 |-> IF i = pos THEN v ELSE FillV(vec[i])]
 PickCfgsOf(route, s) == {Cfg(route, s.vec, VecVals(s.vec, s.pos, v), s.pos, s.k) : v \in Elems(ValueSeq(s.vec[s.pos]))}
